@@ -9,6 +9,7 @@ package evalopts
 import (
 	"errors"
 	"fmt"
+	"reflect"
 	"time"
 
 	"github.com/verily-src/fhirpath-go/fhirpath/internal/opts"
@@ -62,7 +63,13 @@ func validateType(input any) error {
 	var err error
 	switch v := input.(type) {
 	case fhir.Base, system.Any:
-		break
+		// a pointer satisfies these interfaces without being a value: a nil pointer holds
+		// nothing, and a pointer to a System value only borrows that value's methods
+		if value := reflect.ValueOf(input); value.Kind() == reflect.Pointer {
+			if _, element := input.(fhir.Base); value.IsNil() || !element {
+				err = fmt.Errorf("%w: %T", ErrUnsupportedType, input)
+			}
+		}
 	case system.Collection:
 		for _, elem := range v {
 			if _, nested := elem.(system.Collection); nested {
